@@ -8,18 +8,59 @@ ID = 'C01'
 TRANSLATORS = [t1_operators.translate]
 PROPERTY_FILE = 'Properties/C01.v'
 THEOREMS = ['C01_operators_denote', 'C01_semantics_functional', 'C01_semantics_composes_denotations',
-            'C01_full_evaluation_sound', 'C01_stack_evaluation_sound']
+            'C01_full_evaluation_sound', 'C01_stack_evaluation_sound',
+            'C01_operators_accept', 'C01_operators_reject', 'C01_semantics_exists', 'C01_semantics_needs_arity',
+            'C01_full_evaluation_complete', 'C01_full_evaluation_exact',
+            'C01_stack_evaluation_fuel_adequate', 'C01_stack_evaluation_complete',
+            'C01_stack_evaluation_unreached_undefined', 'C01_entry_points_agree',
+            'C01_evaluate_agrees_with_full', 'C01_evaluate_at_is_component',
+            'C01_outputs_evaluation_complete',
+            'C01_zip_inputs_short', 'C01_zip_inputs', 'C01_zip_inputs_keys', 'C01_zip_inputs_nth',
+            'C01_zip_inputs_general',
+            'C01_evaluate_complete', 'C01_evaluate_sound', 'C01_evaluate_short',
+            'C01_evaluate_at_complete', 'C01_evaluate_at_out_of_range',
+            'C01_all_bool_vectors_length', 'C01_all_bool_vectors_nth', 'C01_all_bool_vectors_bits',
+            'C01_all_bool_vectors_complete', 'C01_truth_table_complete', 'C01_gates_truth_table_complete',
+            'C01_bool_vector_total',
+            'C01_semantics_extensional', 'C01_semantics_gate_order', 'C01_full_evaluation_gate_order',
+            'C01_semantics_label_renaming', 'C01_semantics_label_renaming_image',
+            'C01_evaluate_gate_order', 'C01_truth_table_gate_order', 'C01_renaming_preserves_WF',
+            'C01_evaluate_label_renaming', 'C01_truth_table_label_renaming',
+            'C01_full_evaluation_label_renaming']
+# No theorem is named ..._partial: every statement in Properties/C01.v is proved as stated.
+# What the C01 theorems do not speak about is listed in LEVEL_NOTE (clause "other gate tables").
 PARTIAL = {}
-LEVEL_TEXT = ('the evaluation entry points of the model are proved to report the relational denotational semantics (soundness: every reported value is the composition of the fixed gate functions) for all circuits and assignments; the regenerated operator tables are proved equal to the hand-written denotation for every type and arity; the model is tied to the code by regeneration (T1) and exact correspondence of all entry points')
-LEVEL_NOTE = ('Coq kernel + vm_compute; translator T1; correspondence harness; hypotheses: input list names INPUT gates, '
-              'assignment keys are inputs; completeness (every gate gets a value) and fuel adequacy: see PARTIAL in evidence')
-TECHNIQUE = ('Coq proof: monotonicity of the regenerated 3-valued operator tables (case analysis + induction on the '
-             'fold), lifted by induction over the relational netlist semantics; evaluators tied to the semantics by '
-             'soundness theorems; model tied to /repo by regenerating the tables (translator T1) and by '
-             'vm_compute correspondence of all evaluation entry points on generated circuits x partial assignments')
-TRUSTED = ['hypotheses of the evaluator theorems: the input list names INPUT gates; the assignment assigns inputs only '
+LEVEL_TEXT = ('proved in Coq for ALL well-formed circuits with operator-accepted arities and ALL (partial or total) '
+              'assignments whose keys are inputs: the relational semantics Eval (composition of the one fixed function '
+              'per gate type; the regenerated 3-valued operator tables are proved equal to the hand-written denotation '
+              'for every type and arity) exists and is unique at every gate; evaluate_full_circuit is total and reports '
+              'exactly these values at exactly the gates; evaluate_circuit never exhausts its fuel 2(|outs|+sum arity)+1, '
+              'raises no error, reports the semantics at every requested output and Undefined at every gate that is '
+              'neither an input nor reachable from them; evaluate_circuit_outputs, evaluate, evaluate_at, '
+              'get_truth_table (row j, column i = value of output j under the i-th vector; all_bool_vectors proved to be '
+              'the 2^n vectors in big-endian binary order) and get_gates_truth_table are total and return the same '
+              'values; invariance: Eval depends on the gate map only as a finite map (any permutation / insertion '
+              'order, evaluator results equal), injective label renaming preserves WF and leaves evaluate and the truth '
+              'table EQUAL, duplicated operands/outputs need no special case; the model is tied to the code by '
+              'regeneration (T1) and exact correspondence of all entry points')
+LEVEL_NOTE = ('Coq kernel + vm_compute; translator T1; correspondence harness. Hypotheses of the totality/exactness '
+              'theorems: WF c (the C02 invariant), arity_ok c (necessary: C01_semantics_needs_arity - a gate with a '
+              'rejected arity has no value and evaluation raises TypeError), assignment keys are inputs (necessary: a '
+              'pre-assigned internal gate is used as given by evaluate_circuit, e.g. a INPUT, n=NOT a, o=IFF n with '
+              '{a:F, n:F} reports o=F; exercised by the correspondence only), requested outputs exist (otherwise '
+              'GateDoesntExistError). Soundness theorems need only: input list names INPUT gates, assignment keys are '
+              'inputs. Not covered by the C01 theorems: the clause about the OTHER gate-interpreting tables (CNF '
+              'templates, synthesis codes, arithmetic codes, pattern simulation, bench conversion) - those are tied to '
+              'Den.den under C05/C06/C07-C09/C04/C14')
+TECHNIQUE = ('Coq proof: operator tables = denotation by case analysis + induction on the fold; existence of the '
+             'semantics by induction on the acyclicity rank; Kahn evaluator by the top_sort prefix theorem; stack '
+             'evaluator fuel adequacy by a potential argument with a ghost set of expanded labels (each label expanded '
+             'at most once, rank excludes re-pushing above itself); entry points as compositions; invariance by '
+             'induction on Eval; model tied to /repo by regenerating the tables (translator T1) and by vm_compute '
+             'correspondence of all evaluation entry points on generated circuits x partial assignments')
+TRUSTED = ['hypotheses of the evaluator theorems: WF c, arity_ok c, the assignment assigns inputs only '
            '(assignments that pre-assign internal gates are exercised by the correspondence only)']
-ASSUMPTIONS = ['termination of evaluate_circuit on the generated fuel is observed by correspondence, not proved']
+ASSUMPTIONS = []
 
 
 def correspondence(ctx, model_ok):
@@ -33,6 +74,11 @@ def correspondence(ctx, model_ok):
     cases = []
     for _ in range(n):
         dump = gen.random_circuit(ctx.rng, with_blocks=False)
+        if ctx.rng.random() < 0.12:
+            dump = gen.malformed_variant(ctx.rng, dump)   # separate malformed stream: error paths
+            r.count('stream', 'malformed')
+        else:
+            r.count('stream', 'well-formed')
         case = evalcorr.make_case(ctx.rng, dump, n_assign=ctx.n(64, 256), n_vec=ctx.n(4, 16))
         cases.append(case)
         r.add_case(case, any(t != 'INPUT' for _, t, _ in dump['gates']))
@@ -42,6 +88,14 @@ def correspondence(ctx, model_ok):
             r.count('gate_types', t)
         for x in case['acs']:
             r.count('full_result', x['full'][1] if x['full'][0] == 'err' else 'ok')
+    if not ctx.quick:
+        # thorough: EXHAUSTIVE enumeration of all netlists with <= 2 inputs and <= 2 gates over a reduced type set
+        for dump in gen.tiny_netlists():
+            case = evalcorr.make_case(ctx.rng, dump, n_assign=16, n_vec=4)
+            cases.append(case)
+            r.add_case(case, any(t != 'INPUT' for _, t, _ in dump['gates']))
+            r.count('stream', 'exhaustive-tiny')
+        r.notes.append('thorough tier enumerated all 908 netlists with <= 2 inputs and <= 2 gates over ' + str(gen.TINY_TYPES))
     r._cases = cases
     if model_ok:
         bad = coqrun.run_cases(ID, 'eval', evalcorr.HEADER, [evalcorr.case_term(c) for c in cases],
